@@ -113,6 +113,10 @@ class C04(Prop):
                             min_size=2, max_size=3),
             'gaps': st.lists(st.sampled_from(['0', '5ms', '10ms', '99ms', '100ms', 'large']), min_size=2, max_size=10),
             'route': st.sampled_from(['response', 'response', 'triggers']),
+            # a further tracepoint on the same line, handled first, whose own window setting cannot be read ("every
+            # ... window setting including unparsable ones"): whatever becomes of it, the others keep their limits and
+            # still collect when due
+            'bad_first': st.sampled_from([None, None, 'window_start', 'window_end']),
         })
         # the tracepoint stays installed while the configuration around it changes: other tracepoints are registered
         # and unregistered in code, the service sends new configurations (which still contain it) or "no change"
@@ -353,13 +357,19 @@ class C04(Prop):
         out = Outcome()
         out.cls('history', 'shared_line')
         specs = recipe['tps']
+        named = [('tp%d' % i, {'fire_count': fc, 'fire_period': fp}) for i, (fc, fp) in enumerate(specs)]
         if recipe['route'] == 'response':
-            triggers = convert_response([TracePointConfig(ID='tp%d' % i, path=PATH, line_number=LINE,
-                                                          args={'fire_count': fc, 'fire_period': fp})
-                                         for i, (fc, fp) in enumerate(specs)])
+            triggers = convert_response([TracePointConfig(ID=n, path=PATH, line_number=LINE, args=a) for n, a in named])
         else:
-            triggers = [build_trigger('tp%d' % i, PATH, LINE, {'fire_count': fc, 'fire_period': fp}, [], [])
-                        for i, (fc, fp) in enumerate(specs)]
+            triggers = [build_trigger(n, PATH, LINE, dict(a), [], []) for n, a in named]
+        if recipe.get('bad_first'):
+            out.cls('shared_line_unreadable_sibling')
+            # (the window is only reachable by direct construction, as in the history mode: put it where LocationAction
+            # reads it)
+            bad = LocationAction('bad', None, {'fire_count': '-1', 'fire_period': '0', 'watches': [], 'frame_type': 'single_frame',
+                                               'stack_type': 'stack', recipe['bad_first']: 'tomorrow'},
+                                 LocationAction.ActionType.Snapshot)
+            triggers.insert(0, Trigger(LineLocation(PATH, LINE, Location.Position.START), [bad]))
         handler, cfg, push = lab.make_handler(triggers)
         models = [Limiter(int(fc), int(fp)) for fc, fp in specs]
         gen = lab.frame_at(PATH, LINE, 'target', {'v': 1})
@@ -374,7 +384,7 @@ class C04(Prop):
             except BaseException as e:      # noqa
                 out.violate('trace_call raised %s' % lab.exc_bucket(e))
                 break
-            got = sorted(s.tracepoint.id for s in push.snapshots[n0:])
+            got = sorted(s.tracepoint.id for s in push.snapshots[n0:] if s.tracepoint.id != 'bad')
             exp = []
             for i, m in enumerate(models):
                 if m.allows(t):
